@@ -148,6 +148,12 @@ pub enum Step {
     Batch { hs: Vec<H> },
     /// replace the internal representative of Ristretto handle a by P + T4[j] (hook)
     Rerep { a: H, j: u8 },
+    /// a point drawn through the library's random constructors from the simulated RNG
+    /// (g 0: group::Group::random for EdwardsPoint, g 1: RistrettoPoint::random)
+    Rand { g: u8, dst: H, rng: Rng },
+    /// group-trait cofactor API on Edwards handle a. via 0 clear_cofactor (dst = 8P), 1 into_subgroup
+    /// (dst = P iff torsion-free), 2 is_torsion_free / is_small_order through the trait
+    Cofac { dst: H, a: H, via: u8 },
     /// Ristretto handle from an Edwards handle: dst = 2 * E[a] wrapped (hook); gives Ristretto values
     /// whose representative carries a history
     FromEd { dst: H, a: H },
@@ -163,6 +169,8 @@ pub enum Step {
     XRaw { k: B, u: B },
     /// MontgomeryPoint * Scalar
     MMul { u: B, s: Sc },
+    /// MontgomeryPoint::mul_base(s) and mul_base_clamped(s bytes)
+    MBase { s: Sc },
     /// mul_bits_be over the first n bits (MSB first within `bits` bytes)
     MBits { u: B, bits: B, n: u16 },
     MToEd { u: B, sign: u8 },
@@ -230,6 +238,9 @@ impl Step {
             Step::Batch { .. } => "Batch",
             Step::Rerep { .. } => "Rerep",
             Step::FromEd { .. } => "FromEd",
+            Step::Rand { .. } => "Rand",
+            Step::Cofac { .. } => "Cofac",
+            Step::MBase { .. } => "MBase",
             Step::XKey { .. } => "XKey",
             Step::XDh { .. } => "XDh",
             Step::XRaw { .. } => "XRaw",
